@@ -1,0 +1,10 @@
+//go:build verif
+
+package wallet
+
+// NewVerifRpcWallet builds the real ElementsRpcWallet over an injected
+// RpcClient (a simulated elementsd), skipping the wallet load/creation
+// handshake of NewRpcWallet. Verification harness only.
+func NewVerifRpcWallet(rpcClient RpcClient, walletName string) *ElementsRpcWallet {
+	return &ElementsRpcWallet{walletName: walletName, rpcClient: rpcClient}
+}
